@@ -943,7 +943,11 @@ func (c *FnCtx) evCall(x *eCall, env *evalEnv) *Val {
 		case "fresh":
 			// fresh(p): p was allocated during this call
 			v := c.ev(x.args[0], env)
-			return c.mk(boolT, and(app(">=", v.S, c.entry.nextRef), app("<", v.S, env.st.nextRef)))
+			pre := c.entry.nextRef
+			if env.old != nil && env.old.nextRef != "" {
+				pre = env.old.nextRef // in a callee's contract applied at a call site: since the call
+			}
+			return c.mk(boolT, and(app(">=", v.S, pre), app("<", v.S, env.st.nextRef)))
 		case "allocated":
 			v := c.ev(x.args[0], env)
 			return c.mk(boolT, app("<", v.S, c.state(env).nextRef))
